@@ -1373,11 +1373,13 @@ class ProcessPoolExecutor(Executor):
 
         # To reduce the risk of opening too many files, remove references to
         # objects that use file descriptors.
-        self._executor_manager_thread = None
-        self._executor_manager_thread_wakeup = None
         if wait or executor_manager_thread is None:
             # When not waiting, the manager thread can still have to respawn
-            # workers to drain the pending jobs: it needs these to do so.
+            # workers to drain the pending jobs: it needs these to do so. And a
+            # later shutdown(wait=True), e.g. by get_reusable_executor when it
+            # replaces this executor, must still be able to wait for it.
+            self._executor_manager_thread = None
+            self._executor_manager_thread_wakeup = None
             self._call_queue = None
             self._result_queue = None
             self._processes_management_lock = None
